@@ -7,6 +7,7 @@ CONSTANTS
   MaxSize = 1
   Void = FALSE
   AllowDestroy = TRUE
+  AllowThrow = FALSE
 INVARIANTS TypeOK NeverBothNonEmpty ExactlyOnceDelivery DeliveredInOrder ItemsSorted WaitersFIFO NoLostWaiter DestroyCancels
 PROPERTY AllResolved
 CHECK_DEADLOCK FALSE
